@@ -48,6 +48,7 @@ class Verifier(Calls):
         self.verifying_key = None
         self.st = State()
         self.exit_kinds = {}
+        self.no_typing = False
         self.assumed_reads = set()
         from .symex import isinstance_any
         self.spec_fns["leaf_isinstance_any"] = isinstance_any
@@ -93,6 +94,8 @@ class Verifier(Calls):
         kind, arg = parse_tag(tag)
         if kind in ("list", "set", "frozenset", "dict"):
             return so.typeof(r) == self.cids.cid(kind)
+        if kind == "anyset":
+            return z3.Or(so.typeof(r) == self.cids.cid("set"), so.typeof(r) == self.cids.cid("frozenset"))
         if kind == "exc":
             self.mentioned.add("BaseException")
             return so.subclass(so.typeof(r), self.cids.cid("BaseException"))
@@ -106,7 +109,7 @@ class Verifier(Calls):
 
     def from_term(self, term, ty=None):
         v = super().from_term(term, ty)
-        if isinstance(v, SV) and ty is not None and not self.spec_mode:
+        if isinstance(v, SV) and ty is not None and not self.no_typing:
             self.assume_typed(v.term, ty)
         return v
 
@@ -119,12 +122,12 @@ class Verifier(Calls):
         fact = None
         # a value read from the untouched pre-state heap refers to a pre-existing object (closed heap)
         bound = self.pre_alloc if (getattr(self, "pre_alloc", None) is not None and is_prestate_term(z3.simplify(t))) else self.comp("$alloc")
-        if kind in ("list", "set", "frozenset", "dict", "exc") or (kind and kind[0].isupper()):
+        if kind in ("list", "set", "frozenset", "anyset", "dict", "exc") or (kind and kind[0].isupper()):
             r = Val.r(t)
             fact = z3.And(Val.is_ref(t), r >= 0, r < bound, self.type_fact(r, ty))
         elif kind == "opt":
             ik = parse_tag(arg)[0]
-            if ik in ("list", "set", "frozenset", "dict", "exc") or (ik and ik[0].isupper()):
+            if ik in ("list", "set", "frozenset", "anyset", "dict", "exc") or (ik and ik[0].isupper()):
                 r = Val.r(t)
                 fact = z3.Or(t == Val.none, z3.And(Val.is_ref(t), r >= 0, r < bound, self.type_fact(r, arg)))
             elif ik == "str":
@@ -287,6 +290,8 @@ class Verifier(Calls):
         r = Val.r(t)
         if kind in ("list", "set", "frozenset", "dict"):
             return z3.And(Val.is_ref(t), so.typeof(r) == self.cids.cid(kind))
+        if kind == "anyset":
+            return z3.And(Val.is_ref(t), z3.Or(so.typeof(r) == self.cids.cid("set"), so.typeof(r) == self.cids.cid("frozenset")))
         if kind in self.reg.shapes:
             return z3.And(Val.is_ref(t), *[so.typeof(r) != cid for cid in containers])
         ci = self.repo.find_class(kind)
@@ -438,6 +443,59 @@ def discharge(obl, background, timeout_ms=10000, use_cvc5=True, want_model=True,
 
 def pick_background(background, obl):
     return background
+
+
+def to_smt2(obl, background, extra_assumptions=()):
+    """self-contained SMT-LIB2 text of one obligation (assumptions, background, negated goal)"""
+    s = z3.Solver()
+    for a in obl.assumptions:
+        s.add(a)
+    for a in extra_assumptions:
+        s.add(a)
+    for b in background:
+        s.add(b)
+    s.add(z3.Not(obl.goal))
+    return s.to_smt2()
+
+
+def discharge_smt2(name, kind, line, smt2, timeout_ms=10000, use_cvc5=True, seed=0, detail=""):
+    """-> Result, from the SMT-LIB2 text (runs in any process)"""
+    t0 = time.time()
+    s = z3.Solver()
+    s.set("timeout", timeout_ms)
+    s.set("random_seed", seed)
+    s.add(z3.parse_smt2_string(smt2))
+    r = s.check()
+    dt = time.time() - t0
+    if r == z3.unsat:
+        return Result(name, "proved", "z3", dt, kind, line)
+    if r == z3.sat:
+        return Result(name, "refuted", "z3", dt, kind, line, model=model_summary(s.model()), detail=detail)
+    reason = s.reason_unknown()
+    if use_cvc5 and os.path.exists(CVC5):
+        st, t2 = run_cvc5_text(smt2, timeout_ms)
+        if st == "unsat":
+            return Result(name, "proved", "cvc5", dt + t2, kind, line)
+        if st == "sat":
+            return Result(name, "refuted", "cvc5", dt + t2, kind, line, detail=detail)
+        dt += t2
+    return Result(name, "unknown", "z3", dt, kind, line, detail="z3: %s" % reason)
+
+
+def run_cvc5_text(smt2, timeout_ms):
+    t0 = time.time()
+    with tempfile.NamedTemporaryFile("w", suffix=".smt2", delete=False) as fh:
+        fh.write("(set-logic ALL)\n" + smt2)
+        path = fh.name
+    try:
+        p = subprocess.run([CVC5, "--strings-exp", "--tlimit=%d" % timeout_ms, path], capture_output=True, text=True, timeout=timeout_ms / 1000 + 5)
+        out = p.stdout.strip().splitlines()
+        st = out[0].strip() if out else "error"
+    except Exception:
+        st = "error"
+    finally:
+        os.unlink(path)
+    return st, time.time() - t0
 
 
 def run_cvc5(solver, timeout_ms):
